@@ -4,6 +4,7 @@ import (
 	"fmt"
 	"go/ast"
 	"go/constant"
+	"go/token"
 	"go/types"
 	"sort"
 	"strings"
@@ -1474,6 +1475,21 @@ func init() {
 						}
 					}
 					x.check(okTail, k+" decodes-data[1:]", x.pos(dec), "the header byte is stripped before decoding", "the decoder is not handed data[1:]")
+					// the output buffer belongs to this call: nil or a slice made here (not a pooled / package-level buffer)
+					dst := dec.Common().Args[len(dec.Common().Args)-1]
+					okDst := prog.IsNilConst(dst)
+					if !okDst {
+						okDst = prog.Reaches(dst, func(w ssa.Value) bool { _, isMk := w.(*ssa.MakeSlice); return isMk }) &&
+							!prog.DependsOn(dst, func(w ssa.Value) bool {
+								if _, isG := w.(*ssa.Global); isG {
+									return true
+								}
+								c, isC := prog.Strip(w).(*ssa.Call)
+								return isC && prog.CallObj(c) != nil && prog.CallObj(c).Name() == "Get"
+							})
+					}
+					n++
+					x.check(okDst, k+" output-buffer-owned-by-the-call", x.pos(dec), "the decoded bytes live in a buffer of their own", "the decoder writes into a shared or pooled buffer that is handed back to the caller: a second decode overwrites the snapshot bytes the first caller is still holding, and one document is rebuilt from another document's snapshot")
 					// the raw return: input unchanged
 					okRaw, nRaw := true, 0
 					for _, r := range prog.Returns(decomp) {
@@ -1709,4 +1725,282 @@ func constString(v ssa.Value) (string, bool) {
 		return "", false
 	}
 	return constant.StringVal(c.Value), true
+}
+
+func init() {
+	register(&Rule{ID: "SIB.rebuild", Min: 2, Text: "the two rebuilders of a list structure are twins: the snapshot decoder (converter.fromJSONArray / fromJSONText) and the in-memory copy (Array.DeepCopy / Text.DeepCopy) fill a fresh RGATreeList / RGATreeSplit through the same set of building methods (Add, AddMovedElement, AddDeadPosition; InsertAfter, SetInsPrev, …), and a building call that one of them makes only under a non-nil test of a lookup in the structure being built (FindNode) is made under the same test by the other — the copy is what the user edits and what the server caches, the decoder is what snapshot-fed replicas get; a position slot, a split link or a guard present in one and missing in the other is a divergence between them (C02/C08) or a crash on bytes the other side would reject (C09)",
+		Run: func(x *Ctx) {
+			type pair struct{ dec, cp, ctor string }
+			n := 0
+			for _, p := range []pair{
+				{convPkg + ".fromJSONArray", crdtPkg + ".(*Array).DeepCopy", "NewRGATreeList"},
+				{convPkg + ".fromJSONText", crdtPkg + ".(*Text).DeepCopy", "NewRGATreeSplit"},
+			} {
+				a, b := x.fn(p.dec), x.fn(p.cp)
+				if a == nil || b == nil {
+					x.C.Unresolved(x.id(), p.dec+" / "+p.cp)
+					continue
+				}
+				sig := func(fn *ssa.Function) map[string]bool {
+					out := map[string]bool{}
+					fresh := func(v ssa.Value) bool {
+						return prog.Reaches(v, func(w ssa.Value) bool {
+							c, ok := prog.Strip(w).(*ssa.Call)
+							if !ok {
+								return false
+							}
+							if o := prog.CallObj(c); o != nil && o.Name() == p.ctor {
+								return true
+							}
+							if f := c.Call.StaticCallee(); f != nil && f.Origin() != nil && f.Origin().Name() == p.ctor {
+								return true
+							}
+							return false
+						})
+					}
+					name := func(c ssa.CallInstruction) string {
+						if o := prog.CallObj(c); o != nil {
+							return o.Name()
+						}
+						if f := c.Common().StaticCallee(); f != nil {
+							if o := f.Origin(); o != nil {
+								return o.Name()
+							}
+							return f.Name()
+						}
+						return ""
+					}
+					// … or a node handed out by the fresh structure (current = list.InsertAfter(…))
+					node := func(v ssa.Value) bool {
+						return prog.Reaches(v, func(w ssa.Value) bool {
+							c, ok := prog.Strip(w).(*ssa.Call)
+							return ok && c.Common().Signature().Recv() != nil && fresh(recvOf(c))
+						})
+					}
+					for _, c := range prog.CallsIn(fn) {
+						rv := recvOf(c)
+						if rv == nil || c.Common().Signature().Recv() == nil || !(fresh(rv) || node(rv)) {
+							continue
+						}
+						nm := name(c)
+						if nm == "" || nm == p.ctor {
+							continue
+						}
+						// building calls only: the ones that return nothing, an error, or a node that is used as the next anchor;
+						// pure lookups appear as guards
+						var guards []string
+						for _, ifi := range x.P.ControlDeps(c.Block()) {
+							bo, ok := ifi.Cond.(*ssa.BinOp)
+							if !ok || (bo.Op != token.NEQ && bo.Op != token.EQL) {
+								continue
+							}
+							var other ssa.Value
+							if prog.IsNilConst(bo.Y) {
+								other = bo.X
+							} else if prog.IsNilConst(bo.X) {
+								other = bo.Y
+							}
+							if other == nil {
+								continue
+							}
+							if isErrorType(other.Type()) {
+								continue
+							}
+							if lc, isC := prog.Strip(other).(*ssa.Call); isC && lc.Common().Signature().Recv() != nil && fresh(recvOf(lc)) {
+								guards = append(guards, "nil-test("+name(lc)+")")
+							}
+						}
+						sort.Strings(guards)
+						out[nm+" under "+strings.Join(uniq(guards), ",")] = true
+					}
+					return out
+				}
+				sa, sb := sig(a), sig(b)
+				var onlyA, onlyB []string
+				for k := range sa {
+					if !sb[k] {
+						onlyA = append(onlyA, k)
+					}
+				}
+				for k := range sb {
+					if !sa[k] {
+						onlyB = append(onlyB, k)
+					}
+				}
+				sort.Strings(onlyA)
+				sort.Strings(onlyB)
+				n++
+				x.check(len(onlyA) == 0 && len(onlyB) == 0 && len(sa) > 0, "pair="+prog.FnName(a)+"~"+prog.FnName(b)+" same-building-calls", x.fpos(b), fmt.Sprintf("both make the same %d kinds of building calls under the same lookup guards", len(sa)),
+					fmt.Sprintf("the snapshot decoder and the in-memory copy do not rebuild the structure alike — decoder only: %v; copy only: %v", onlyA, onlyB))
+			}
+			if n < 2 {
+				x.C.Vacuous(x.id()+" pairs", n, 2)
+			}
+		}})
+}
+
+func init() {
+	register(&Rule{ID: "S2.cond", Min: 20, Text: "optional fields are encoded on their own terms: in the encoders of package converter (to_pb.go, to_bytes.go), when a field of a protobuf message is written under a condition (an if around the assignment, a range loop that appends), that condition reads only the source the written value itself is read from (the same accessor or field of the model object: `if x.InsPrevID() != nil { pb.InsPrevId = f(x.InsPrevID()) }`), an error of computing it, or the type dispatch — never a different property of the object (its removal stamp, whether it also carries contents, …). A field left out for one combination of the other fields decodes to the zero value on every replica that gets the value over the wire or from a snapshot, while the sender keeps the real one",
+		Run: func(x *Ctx) {
+			n := 0
+			cnt := map[string]int{}
+			for _, fn := range x.P.FuncsIn(convPkg) {
+				if fn.Parent() != nil {
+					continue
+				}
+				file := x.P.Fset.Position(fn.Pos()).Filename
+				if !(strings.HasSuffix(file, "to_pb.go") || strings.HasSuffix(file, "to_bytes.go")) {
+					continue
+				}
+				// accessor calls / field loads on model objects (packages crdt, operations, change, time, presence)
+				srcOf := func(v ssa.Value) map[string]bool {
+					out := map[string]bool{}
+					prog.DependsOn(v, func(w ssa.Value) bool {
+						if c, ok := prog.Strip(w).(*ssa.Call); ok {
+							var o *types.Func
+							if c.Call.IsInvoke() {
+								o = c.Call.Method
+							} else {
+								o = prog.CallObj(c)
+							}
+							if o != nil && o.Pkg() != nil && strings.Contains(o.Pkg().Path(), "/pkg/document") && o.Type().(*types.Signature).Recv() != nil {
+								out[o.Name()] = true
+							}
+						}
+						if f := prog.LoadedField(w); f != nil && f.Pkg() != nil && strings.Contains(f.Pkg().Path(), "/pkg/document") {
+							out[f.Name()] = true
+						}
+						return false
+					})
+					return out
+				}
+				for _, b := range fn.Blocks {
+					for _, ins := range b.Instrs {
+						st, ok := ins.(*ssa.Store)
+						if !ok {
+							continue
+						}
+						fa, ok := st.Addr.(*ssa.FieldAddr)
+						if !ok {
+							continue
+						}
+						f := prog.FieldVar(fa)
+						if f == nil || f.Pkg() == nil || !strings.HasSuffix(f.Pkg().Path(), "/api/yorkie/v1") || !f.Exported() {
+							continue
+						}
+						deps := x.P.ControlDeps(st.Block())
+						if len(deps) == 0 {
+							continue
+						}
+						val := srcOf(st.Val)
+						if ac, isC := prog.Strip(st.Val).(*ssa.Call); isC {
+							if bi, isB := ac.Call.Value.(*ssa.Builtin); isB && bi.Name() == "append" {
+								// what is appended, not what the destination already holds
+								val = map[string]bool{}
+								for _, a := range ac.Call.Args[1:] {
+									for k := range srcOf(a) {
+										val[k] = true
+									}
+								}
+							}
+						}
+						if len(val) == 0 {
+							continue
+						}
+						var foreign []string
+						own := false
+						pd := x.P.PostDominators(fn)
+						for _, ifi := range deps {
+							if isErrorTest(ifi.Cond) {
+								continue
+							}
+							if _, isTA := prog.Strip(ifi.Cond).(*ssa.Extract); isTA {
+								continue // comma-ok of a type assertion / type switch
+							}
+							src := srcOf(ifi.Cond)
+							isForeign := false
+							var names []string
+							for s := range src {
+								if !val[s] {
+									isForeign = true
+									names = append(names, s)
+								}
+							}
+							if !isForeign {
+								if len(src) > 0 {
+									own = true
+								}
+								continue
+							}
+							// a foreign test is a dispatch or a validation when its other side writes the message
+							// differently or returns; it is a silent omission when the other side just falls through
+							ib := ifi.Block()
+							var other *ssa.BasicBlock
+							for _, sc := range ib.Succs {
+								if sc != st.Block() && !prog.ReachableFrom(sc, nil)[st.Block()] {
+									other = sc
+								}
+							}
+							if other == nil {
+								for _, sc := range ib.Succs {
+									if !sc.Dominates(st.Block()) && sc != st.Block() {
+										other = sc
+									}
+								}
+							}
+							silent := true
+							if other != nil {
+								seen := map[*ssa.BasicBlock]bool{}
+								q := []*ssa.BasicBlock{other}
+								for len(q) > 0 {
+									cb := q[len(q)-1]
+									q = q[:len(q)-1]
+									if seen[cb] || pd.PostDom(ib, cb) {
+										continue
+									}
+									seen[cb] = true
+									for _, in2 := range cb.Instrs {
+										switch t := in2.(type) {
+										case *ssa.Return:
+											silent = false
+										case *ssa.Store:
+											if fa2, ok2 := t.Addr.(*ssa.FieldAddr); ok2 {
+												if f2 := prog.FieldVar(fa2); f2 != nil && f2.Pkg() != nil && strings.HasSuffix(f2.Pkg().Path(), "/api/yorkie/v1") {
+													silent = false
+												}
+											}
+										}
+									}
+									q = append(q, cb.Succs...)
+								}
+							}
+							if silent {
+								foreign = append(foreign, names...)
+							}
+						}
+						if !own {
+							foreign = nil // not a narrowed condition of the field's own presence test
+						}
+						sort.Strings(foreign)
+						foreign = uniq(foreign)
+						n++
+						cnt[prog.FnName(fn)+f.Name()]++
+						x.check(len(foreign) == 0, fmt.Sprintf("func=%s field=%s#%d written-on-its-own-terms", prog.FnName(fn), f.Name(), cnt[prog.FnName(fn)+f.Name()]), x.pos(st),
+							"the condition reads only what the value is read from", fmt.Sprintf("the field is written only under a condition that reads %v, which the written value is not computed from: for the other combination the field is silently left out of the encoding", foreign))
+					}
+				}
+			}
+			if n < 20 {
+				x.C.Vacuous(x.id()+" conditional field writes", n, 20)
+			}
+		}})
+}
+
+// isErrorTest: cond compares an error value with nil.
+func isErrorTest(cond ssa.Value) bool {
+	bo, ok := prog.Strip(cond).(*ssa.BinOp)
+	if !ok {
+		return false
+	}
+	return (prog.IsNilConst(bo.Y) && isErrorType(bo.X.Type())) || (prog.IsNilConst(bo.X) && isErrorType(bo.Y.Type()))
 }
